@@ -12,7 +12,7 @@ use dfir_lang::graph::{
 use dfir_lang::parse::DfirCode;
 use proc_macro2::TokenStream;
 use quote::quote;
-use vcommon::catch;
+use crate::quiet::catch;
 
 use crate::abs::{Abs, Id, abstract_graph, kid};
 
